@@ -210,6 +210,31 @@ Proof.
   simpl. intros q [H|[H|[H|[H|[]]]]]; subst q; reflexivity.
 Qed.
 
+(* algorithm model: operation_on_pair_of_landscapes on one level (merge of the two breakpoint lists with function_value on the
+   other operand, the two tail loops, the final sentinel).  level_ok l: strictly increasing abscissae from -INF to INF, at least
+   two points, ordinate 0 at the last two points (true of every level built from a diagram and preserved by the operations).
+   The merged list is the pointwise sum / difference at every t between the sentinels. *)
+Theorem C18_merge_add_pointwise : forall l1 l2 r, level_ok l1 -> level_ok l2 -> merge_level radd l1 l2 = Some r ->
+  forall t, - INF <= t -> t <= INF -> interp r t == interp l1 t + interp l2 t.
+Proof. exact merge_add_pointwise. Qed.
+Print Assumptions C18_merge_add_pointwise.
+
+Theorem C18_merge_sub_pointwise : forall l1 l2 r, level_ok l1 -> level_ok l2 -> merge_level rsub l1 l2 = Some r ->
+  forall t, - INF <= t -> t <= INF -> interp r t == interp l1 t - interp l2 t.
+Proof. exact merge_sub_pointwise. Qed.
+Print Assumptions C18_merge_sub_pointwise.
+Example C18_merge_nonvacuous :
+  let l1 := [(- INF, 0); (0, 0); (3 # 1, 3 # 1); (6 # 1, 0); (INF, 0)] in
+  let l2 := [(- INF, 0); (1, 0); (2 # 1, 1); (3 # 1, 0); (INF, 0)] in
+  level_ok l1 /\ level_ok l2 /\
+  merge_level rsub l1 l2 = Some [(- INF, 0); (0, 0); (1, 1); (2 # 1, 1); (3 # 1, 3 # 1); (6 # 1, 0); (INF, 0)].
+Proof.
+  split; [|split].
+  - unfold level_ok. repeat split; try reflexivity; try (simpl; lia). unfold xsorted; simpl. repeat constructor; reflexivity.
+  - unfold level_ok. repeat split; try reflexivity; try (simpl; lia). unfold xsorted; simpl. repeat constructor; reflexivity.
+  - vm_compute. reflexivity.
+Qed.
+
 (* algorithm model: one level of multiply_lanscape_by_real_number_not_overwrite is the pointwise multiple *)
 Theorem C18_scale_level_pointwise : forall c f t, interp (scale_level c f) t == c * interp f t.
 Proof. exact scale_level_pointwise. Qed.
@@ -373,10 +398,6 @@ Proof. exact grid_value_at_grid_point. Qed.
 Print Assumptions C18_grid_value_at_grid_point.
 
 (* ---------------------------------------------------------------- not proved: compared per input by the correspondence run *)
-(* the merge of two different breakpoint lists (operation_on_pair_of_landscapes) is the pointwise operation.
-   Proved here only for equal abscissae (C18_pl_add_pointwise / C18_pl_sub_pointwise). *)
-Definition C18_merge_pointwise_full : Prop :=
-  forall l1 l2 r t, xsorted l1 -> xsorted l2 -> merge_level radd l1 l2 = Some r -> interp r t == interp l1 t + interp l2 t.
 (* for grid-aligned diagrams the repaired grid evaluation equals lambda_k at and between grid points *)
 Definition C18_grid_value_eq_lambda_full : Prop :=
   forall D gmin gmax npts k t, aligned D gmin gmax npts = true -> gmin <= t -> t <= gmax ->
